@@ -2,7 +2,7 @@
    Remote.uploadProfile (pkg/agent/upstream/remote/remote.go).  Definitions only.
    URL coding of query values is taken as the identity (url.Values.Encode / URL.Query). *)
 From Coq Require Import Ascii.
-From Pyro Require Export Model.Base Model.Tree Model.Varint Model.TTrie Model.TextFormats.
+From Pyro Require Export Model.Base Model.Tree Model.Varint Model.TTrie Model.TextFormats Model.TreeCodec.
 
 Local Open Scope N_scope.
 
@@ -108,3 +108,7 @@ Definition tree_via_trie (body : bytes) : option tnode :=
   end.
 (* what the agent's uploader sends for a multiset of samples *)
 Definition trie_body (ms : list (bytes * N)) : bytes := tt_serialize 1 1 (tt_of_multiset ms).
+
+(* format=tree: tree.DeserializeNoDict on the body; a client writes Tree.SerializeNoDict(maxNodes) *)
+Definition tree_via_tree (body : bytes) : option tnode := tc_deserialize_nodict body.
+Definition tree_body (maxNodes : nat) (ms : list (bytes * N)) : bytes := tc_serialize_nodict maxNodes (profile_of ms).
